@@ -258,16 +258,16 @@ example : Generated.Trans.datatype.decodeMetadata (Generated.Trans.datatype.meta
     the equality holds for every byte string in its place. -/
 theorem C19_translated_internal_keys :
     (∀ (key field : ByteArray) (version : Nat), key.size < 2^60 → field.size < 2^60 → version < 2^63 →
-        Generated.Trans.datatype.hashInternalKey_encode key field (version : Int) = hashKey key version field) ∧
+        Generated.Trans.datatype.hashInternalKey_encode key (version : Int) field = hashKey key version field) ∧
     (∀ (key member : ByteArray) (version : Nat), key.size < 2^60 → member.size < 2^60 → version < 2^63 →
-        Generated.Trans.datatype.setInternalKey_encode key member (version : Int) = setKey key version member) ∧
+        Generated.Trans.datatype.setInternalKey_encode key (version : Int) member = setKey key version member) ∧
     (∀ (key : ByteArray) (version index : Nat), key.size < 2^60 → version < 2^63 →
         Generated.Trans.datatype.listInternalKey_encode key (version : Int) index = listKey key version index) ∧
     (∀ (key member : ByteArray) (version : Nat), key.size < 2^60 → member.size < 2^60 → version < 2^63 →
-        Generated.Trans.datatype.zsetInternalKey_encodeWithMember key member (version : Int) = zmemKey key version member) ∧
+        Generated.Trans.datatype.zsetInternalKey_encodeWithMember key (version : Int) member = zmemKey key version member) ∧
     (∀ (score key member : ByteArray) (version : Nat), score.size < 2^60 → key.size < 2^60 → member.size < 2^60 →
         version < 2^63 →
-        Generated.Trans.datatype.zsetInternalKey_encodeWithScore score key member (version : Int)
+        Generated.Trans.datatype.zsetInternalKey_encodeWithScore score key (version : Int) member
           = zscoreKey key version score member) :=
   ⟨fun key field version hk hf hv => TransEq.trans_hashInternalKey_encode_eq key field version hk hf hv,
    fun key member version hk hm hv => TransEq.trans_setInternalKey_encode_eq key member version hk hm hv,
@@ -277,18 +277,18 @@ theorem C19_translated_internal_keys :
      TransEq.trans_zsetInternalKey_encodeWithScore_eq score key member version hs hk hm hv⟩
 
 /-- non-vacuity: the keys of the demo histories above (`k1`, field / member `a`, score text "1.5", version 40) -/
-example : Generated.Trans.datatype.hashInternalKey_encode k1 a 40 = ⟨#[0x6b, 0x31, 40, 0, 0, 0, 0, 0, 0, 0, 0x61]⟩ :=
+example : Generated.Trans.datatype.hashInternalKey_encode k1 40 a = ⟨#[0x6b, 0x31, 40, 0, 0, 0, 0, 0, 0, 0, 0x61]⟩ :=
   (C19_translated_internal_keys.1 k1 a 40 (by decide) (by decide) (by decide)).trans (by decide)
-example : Generated.Trans.datatype.setInternalKey_encode k1 a 40
+example : Generated.Trans.datatype.setInternalKey_encode k1 40 a
     = ⟨#[0x6b, 0x31, 40, 0, 0, 0, 0, 0, 0, 0, 0x61, 1, 0, 0, 0]⟩ :=
   (C19_translated_internal_keys.2.1 k1 a 40 (by decide) (by decide) (by decide)).trans (by decide)
 example : Generated.Trans.datatype.listInternalKey_encode k1 40 (initialListMark - 1)
     = ⟨#[0x6b, 0x31, 40, 0, 0, 0, 0, 0, 0, 0, 0xfe, 0xff, 0xff, 0xff, 0xff, 0xff, 0xff, 0x7f]⟩ :=
   (C19_translated_internal_keys.2.2.1 k1 40 _ (by decide) (by decide)).trans (by decide)
-example : Generated.Trans.datatype.zsetInternalKey_encodeWithMember k1 a 40
+example : Generated.Trans.datatype.zsetInternalKey_encodeWithMember k1 40 a
     = ⟨#[0x6b, 0x31, 40, 0, 0, 0, 0, 0, 0, 0, 0x61]⟩ :=
   (C19_translated_internal_keys.2.2.2.1 k1 a 40 (by decide) (by decide) (by decide)).trans (by decide)
-example : Generated.Trans.datatype.zsetInternalKey_encodeWithScore s15 k1 a 40
+example : Generated.Trans.datatype.zsetInternalKey_encodeWithScore s15 k1 40 a
     = ⟨#[0x6b, 0x31, 40, 0, 0, 0, 0, 0, 0, 0, 0x31, 0x2e, 0x35, 0x61, 1, 0, 0, 0]⟩ :=
   (C19_translated_internal_keys.2.2.2.2 s15 k1 a 40 (by decide) (by decide) (by decide) (by decide)).trans (by decide)
 
